@@ -82,12 +82,6 @@ func judgeDecode(t vlib.Fataler, g *group, format string, b []byte, res any, err
 		t.Fatalf("%s %s: ACCEPTED a byte string that denotes no element: %v", g.name, what, v.err)
 	}
 	mp := modelOf(t, g, what, res)
-	if g.name == "p256" && innerFormat(g, format) == "compressed" && payload[0] == 3 && m.IsNeutral(mp) && !m.IsNeutral(v.pt) && v.pt.X.Sign() == 0 {
-		// tag 03 with x ≡ 0 on P-256 denotes (0, odd √b); the library returns the identity.
-		if excluded(fP256x03) {
-			return "accept:EXCLUDED-" + fP256x03
-		}
-	}
 	same := m.Equal(mp, v.pt) || (v.anySign && m.Equal(mp, m.Neg(v.pt)))
 	if !same {
 		t.Fatalf("%s %s: decoded to %s, the model reads %s", g.name, what, ptString(g, mp), v)
@@ -95,15 +89,13 @@ func judgeDecode(t vlib.Fataler, g *group, format string, b []byte, res any, err
 	if g.prime && !inSubgroup(m, mp) {
 		t.Fatalf("%s %s: accepted a point outside the prime-order subgroup: %s", g.name, what, ptString(g, mp))
 	}
-	if g.wire == wireZcash && v.issue != 0 {
-		// every Issue of the ZCash format is a MUST-reject (coordinate >= p, forbidden flag combination)
-		if v.issue&refcurve.IssueRange != 0 && v.issue&refcurve.IssueFlags == 0 && excluded(fBLSRange) {
-			return "accept:EXCLUDED-" + fBLSRange
-		}
-		if innerFormat(g, format) == "uncompressed" && v.issue&refcurve.IssueFlags != 0 && excluded(fBLSUncFlags) {
+	if g.wire == wireZcash && v.issue&refcurve.IssueFlags != 0 {
+		// a flag combination the ZCash format forbids must be an error; a coordinate >= p that is
+		// reduced is accepted like on the other curves (uniqueness of encodings is not claimed)
+		if innerFormat(g, format) == "uncompressed" && excluded(fBLSUncFlags) {
 			return "accept:EXCLUDED-" + fBLSUncFlags
 		}
-		t.Fatalf("%s %s: accepted an encoding the ZCash format forbids (%s); decoded to %s", g.name, what, v.issue, ptString(g, mp))
+		t.Fatalf("%s %s: accepted a flag combination the ZCash format forbids (%s); decoded to %s", g.name, what, v.issue, ptString(g, mp))
 	}
 	switch {
 	case v.lenient != "":
@@ -179,12 +171,9 @@ func encodeBy(t vlib.Fataler, g *group, format string, p any, desc string) []byt
 func knownEncodeDeviation(g *group, e element, format string) (string, bool) {
 	m := g.m
 	inner := innerFormat(g, format)
-	if g.name == "p256" && inner == "compressed" && !m.IsNeutral(e.pt) && e.pt.X.Sign() == 0 {
-		id := fP256x02
-		if e.pt.Y.Bit(0) == 1 {
-			id = fP256x03
-		}
-		return id, excluded(id)
+	if g.name == "p256" && inner == "compressed" && !m.IsNeutral(e.pt) && e.pt.X.Sign() == 0 && e.pt.Y.Bit(0) == 0 {
+		// (0, even √b) encodes to 02‖0…0, the identity's reserved encoding
+		return fP256x02, excluded(fP256x02)
 	}
 	if g.wire == wireMont && !m.IsNeutral(e.pt) && e.pt.X.Sign() == 0 {
 		if inner == "compressed" {
@@ -687,11 +676,7 @@ func TestAffineConstructors(t *testing.T) {
 				}
 				outcome = "accept"
 				if g.prime && !inSubgroup(m, mp) {
-					if g.name == "bls-g1" && excluded(fG1AffineX) {
-						outcome = "EXCLUDED-" + fG1AffineX
-					} else {
-						t.Fatalf("%s FromAffineX(%x, %v): returned a point outside the prime-order subgroup: %s", g.name, x, odd, ptString(g, mp))
-					}
+					t.Fatalf("%s FromAffineX(%x, %v): returned a point outside the prime-order subgroup: %s", g.name, x, odd, ptString(g, mp))
 				}
 			} else if onCurve && inSubgroup(m, lifted) {
 				t.Fatalf("%s FromAffineX(%x, %v): rejected (%v) the abscissa of the valid point %s", g.name, x, odd, err, ptString(g, lifted))
